@@ -180,7 +180,7 @@ def rnd_history(rnd, nops, zst):
             op = rnd.choice(["write", "write", "read", "write_slice", "read_slice", "write_obj", "read_obj", "store", "load",
                              "copy_to", "copy_from", "copy_to_volatile_slice", "read_volatile_from",
                              "read_exact_volatile_from", "write_volatile_to", "write_all_volatile_to", "read_from_bad_fd",
-                             "write_to_cursor", "write_all_to_cursor",
+                             "write_to_cursor", "write_all_to_cursor", "write_to_bad_fd",
                              "ref_store", "ref_load", "arr_load", "arr_store", "arr_copy_to", "arr_copy_from",
                              "arr_copy_to_volatile_slice", "bitmap_reset"])
             if op in ("write", "write_slice"):
@@ -205,7 +205,7 @@ def rnd_history(rnd, nops, zst):
                 a = {"to": to, "tc": tc}
             elif op in ("read_volatile_from", "read_exact_volatile_from"):
                 a = {"addr": pos(), "src": buf(rnd.choice([0, 1, 2, 5, 8, 9, 17, 40])), "count": cnt()}
-            elif op in ("write_volatile_to", "write_all_volatile_to", "read_from_bad_fd"):
+            elif op in ("write_volatile_to", "write_all_volatile_to", "read_from_bad_fd", "write_to_bad_fd"):
                 a = {"addr": pos(), "count": cnt()}
                 if rnd.random() < 0.06:
                     a["addr"], a["count"] = wrap_pair()
